@@ -129,6 +129,44 @@ def run(ctx):
     term = [s for s in st if s.rhs.cv == 0 and s.lhs.ch[1].s.endswith('nb_taskpools')]
     rd.expect(len(term) == 1 and app and f.precedes(app[0], term[0]), 'compose:terminate', term[0].loc if term else f.where(), 'array must be NULL-terminated at nb_taskpools after appending', note='append: taskpool_array[nb_taskpools] = NULL')
 
+    # (f) the compound must not be declared ready (and hence terminated: its pending-action count is 0 until the
+    #     startup hook runs) by parsec_context_add_taskpool: it installs its own detector when it is created and
+    #     declares itself ready in the startup hook, after the members were counted and before the first is enqueued.
+    rf = ctx.rule('R15.f', 'compound owns its termination detector; ready only after members are counted', floor=2)
+    us = ctx.extract('parsec/scheduling.c')
+    fa = us.func('parsec_context_add_taskpool')
+    auto = [e for e in fa.calls() if e.fn is None and e.callee is not None and e.callee.k == 'mem' and e.callee.n == 'taskpool_ready']
+    hook = [e for e in fa.calls() if e.fn is None and e.callee is not None and e.callee.k == 'mem' and e.callee.n == 'startup_hook']
+    if not auto or not hook:
+        raise AnalysisBroken('add_taskpool: auto-ready / startup_hook anchors missing')
+    auto_before_hook = all(fa.ordered(a, hook[0]) for a in auto) and all(fa.guarded_by(a.point, lambda x, t: x.s.endswith('tdm.module') and not t) for a in auto)
+    mons = []
+    for g in u.funcs().values():
+        if g.file.endswith('compound.c'):
+            for e in g.calls():
+                if e.fn is None and e.callee is not None and e.callee.k == 'mem' and e.callee.n == 'monitor_taskpool' and e.args and e.args[0].s.endswith('->super') and e.args[0].s.startswith('&'):
+                    if g.postdominates(e.point, (g.entry, 0)) or g.name == 'parsec_compose':
+                        mons.append((g, e))
+    cons = None
+    for gl in u.globals().values():
+        pass
+    creators = {'__parsec_compound_taskpool_constructor', 'parsec_compose'}
+    own = [(g, e) for g, e in mons if g.name in creators and e.args[1].s == 'parsec_taskpool_termination_detected']
+    if auto_before_hook:
+        rf.expect(bool(own), 'compound:early-ready', (own[0][1].loc if own else u.func('__parsec_compound_taskpool_constructor').where()),
+                  'parsec_context_add_taskpool declares a taskpool without detector ready BEFORE its startup hook; the compound sets its pending actions only in its startup hook, so it must install its own '
+                  'termination detector when it is created (otherwise it is terminated as soon as it is enqueued)', note='compound installs its own detector at creation (monitor_taskpool(&compound->super, termination_detected))')
+    else:
+        rf.ok(fa.where(), 'add_taskpool no longer declares detector-less taskpools ready before their startup hook')
+    f = u.func('parsec_compound_taskpool_startup')
+    rdy = [e for e in f.calls() if e.fn is None and e.callee is not None and e.callee.k == 'mem' and e.callee.n == 'taskpool_ready']
+    sra = [e for e in f.calls() if e.fn is None and e.callee is not None and e.callee.k == 'mem' and e.callee.n == 'taskpool_set_runtime_actions']
+    adds = f.calls(ADD)
+    if own or not auto_before_hook:
+        ok = len(rdy) == 1 and sra and adds and f.precedes(sra[0], rdy[0]) and f.precedes(rdy[0], adds[0]) and rdy[0].args[0].s.endswith('->super')
+        rf.expect(ok, 'compound:ready-order', rdy[0].loc if rdy else f.where(), 'the compound must declare itself ready exactly once, after set_runtime_actions(nb_taskpools) and before enqueuing its first member',
+                  note='startup: set_runtime_actions(nb) -> taskpool_ready -> enqueue first member')
+
     # (e)
     bad = []
     for g in u.funcs().values():
